@@ -3,6 +3,7 @@ import Gtree.Lemmas.GoStrings
 import Gtree.Model.Parser
 import Gtree.Model.Split
 import Gtree.Model.Spread
+import Gtree.Model.MkOps
 /-
   The definitions translated from /repo's sources (`Generated/Source.lean`, regenerated on every run)
   compute what the hand-written model computes: the line parser (`Parser.Parse` and its helpers), the
@@ -518,5 +519,32 @@ theorem splitAtName_find (x : Bytes) : ∀ ks : List T,
 theorem findChildByText_is_splitAtName (h : Nat) (n x : Bytes) (ks : List T) :
     Src.Node.findChildByText (toNode h (.mk n ks)) x = ((splitAtName x ks).map (fun p => p.2.1)).map (toNode (h + 1)) := by
   rw [findChildByText_src, splitAtName_find]
+
+
+theorem len_ne_zero_list {α : Type} (l : List α) : (len l != 0) = !l.isEmpty := by
+  cases l with
+  | nil => rfl
+  | cons x xs =>
+    simp only [len, List.length_cons, List.isEmpty_cons, Bool.not_false, bne_iff_ne, ne_eq]
+    intro e
+    have : ((xs.length + 1 : Nat) : Int) = 0 := e
+    omega
+
+/-- **`defaultVerifierSimple.handleErr` of simple_tree_verifier.go is the model's verdict on one root**
+    (`verifyRoots` / `verifyOne`): an error exactly when a required path is missing or, in strict mode, an extra
+    entry exists; the error carries the two lists and the strictness. -/
+theorem verifier_handleErr_src (strict : Bool) (dir : Bytes) (extra missing : List Bytes) :
+    Src.defaultVerifierSimple.handleErr ⟨strict, dir⟩ extra missing =
+      if (strict && !extra.isEmpty) || !missing.isEmpty then some (Src.Err.verifyError strict extra missing) else none := by
+  unfold Src.defaultVerifierSimple.handleErr
+  simp only [len_ne_zero_list]
+
+/-- the same decision as the model's worker of one root (`verifyOne`), given what `verifyRoot` found -/
+theorem verifyOne_decision (fs : FS) (target : Bytes) (strict : Bool) (vs : List Visit) (d : VerifyDiff)
+    (h : verifyRoot fs target vs = .ok d) (dir : Bytes) :
+    (verifyOne fs target strict vs).isSome = (Src.defaultVerifierSimple.handleErr ⟨strict, dir⟩ d.extra d.missing).isSome := by
+  rw [verifier_handleErr_src]
+  simp only [verifyOne, h]
+  split <;> rfl
 
 end Gtree
